@@ -122,7 +122,7 @@ End Estimate.
 
 (* ------------------------------------------------------------------ *)
 Section AutoLearn.
-Context {D SY : Type} (dops : dict_ops D) (sops : syl_ops SY) (conv : conv_fn).
+Context {D SY : Type} (dops : dict_ops D) (sops : syl_ops SY) (conv : conv_fn D).
 Local Open Scope nat_scope.
 Notation shared' := (shared D SY).
 
